@@ -1,5 +1,5 @@
-(* Model of base/timemath (Midpoint, Median, FaultTolerantMidpoint, Sgn, Inv)
-   and core/measurements (midpoint, Median, FaultTolerantMidpoint). *)
+(* Model of base/timemath (Midpoint, Median, FaultTolerantMidpoint, Sgn, Inv).
+   core/measurements (midpoint, Median, FaultTolerantMidpoint) is modelled in Model/FtmMeas.v. *)
 From ST Require Import Base.Ints Base.Sorting Model.NtpTime.
 From Coq Require Import Sorting.Permutation.
 Open Scope Z_scope.
@@ -23,50 +23,8 @@ Definition ftm (l : list Z) : option Z :=
 Definition median (l : list Z) : option Z :=
   match l with [] => None | _ => Some (median_sorted (zsort l)) end.
 
-(* measurements *)
-Record meas := { m_ts : Z; m_off : Z; m_err : bool }.
-Definition meas_zero : meas := {| m_ts := 0; m_off := 0; m_err := false |}.
-
-(* time.Time.Add is exact in the model; Sub saturates *)
-Definition midpoint_m (x y : meas) : meas :=
-  {| m_off := midpoint (m_off x) (m_off y);
-     m_ts := if negb (m_ts y <? m_ts x)
-             then m_ts x + go_div (time_sub (m_ts y) (m_ts x)) 2
-             else m_ts y + go_div (time_sub (m_ts x) (m_ts y)) 2;
-     m_err := false |}.
-
-Definition ftm_m_sorted (s : list meas) : meas :=
-  let n := length s in let f := ((n - 1) / 3)%nat in
-  midpoint_m (nth f s meas_zero) (nth (n - 1 - f) s meas_zero).
-Definition median_m_sorted (s : list meas) : meas :=
-  let n := length s in let i := (n / 2)%nat in
-  if Nat.eqb (n mod 2) 0 then midpoint_m (nth (i - 1) s meas_zero) (nth i s meas_zero)
-  else {| m_ts := m_ts (nth i s meas_zero); m_off := m_off (nth i s meas_zero); m_err := false |}.
-
-(* The Go code sorts with an unstable sort on the offset; the order of equal
-   offsets is Go's choice.  The model is therefore relational: any sorted
-   permutation s of the input may be the slice after the call. *)
-Definition is_sorted_perm (ms s : list meas) : Prop :=
-  Permutation ms s /\ sorted_by m_off s.
-
-(* executable acceptance check used on the implementation's observations:
-   s (the slice after the call) must be sorted and a permutation of ms *)
-Definition meas_key (m : meas) : Z * Z * bool := (m_off m, m_ts m, m_err m).
-Definition meas_eqb (a b : meas) : bool :=
-  (m_off a =? m_off b) && (m_ts a =? m_ts b) && Bool.eqb (m_err a) (m_err b).
-Fixpoint remove_first (x : meas) (l : list meas) : option (list meas) :=
-  match l with
-  | [] => None
-  | y :: r => if meas_eqb x y then Some r
-              else match remove_first x r with Some r' => Some (y :: r') | None => None end
-  end.
-Fixpoint is_permb (a b : list meas) : bool :=
-  match a with
-  | [] => match b with [] => true | _ => false end
-  | x :: r => match remove_first x b with Some b' => is_permb r b' | None => false end
-  end.
-Definition sorted_permb (ms s : list meas) : bool :=
-  is_permb ms s && zsortedb (map m_off s).
+(* measurements: see Model/FtmMeas.v (time.Time as Go stores it, measurements.{midpoint, Median,
+   FaultTolerantMidpoint}, and the oracles for timestamped measurements) *)
 
 (* ---- property oracle (from the property text) ---- *)
 (* tagged values: (v, true) = correct, (v, false) = arbitrary *)
